@@ -288,6 +288,9 @@ func (w *Worker) nativeArg(v Value) (interface{}, bool) {
 				}
 			}
 		case *types.Pointer:
+			if p, ok := x.V.(Ptr); ok && p == nil && isBigType(u.Elem()) {
+				return (*big.Int)(nil), true
+			}
 			if p, ok := x.V.(Ptr); ok && p != nil {
 				if b, ok := (*p).(BigVal); ok {
 					if b.C == nil {
